@@ -51,6 +51,8 @@ def gate_requests(rnd, thorough):
             add("ReducingExtensionGate", n)
     for sb in (2, 3, 4):
         for d in range(2, 7):
+            if d > 2 ** sb:
+                continue  # plonky2 never builds an interpolation gate whose degree exceeds its number of points (degree = (n-2)/(k+1)+2 <= n)
             if thorough or (sb, d) in ((2, 2), (3, 3), (4, 6), (4, 2), (3, 6)):
                 add("CosetInterpolationGate", sb, d)
     return gs
